@@ -210,6 +210,62 @@ dirty_buf_h!(project_unchecked_dirty_buf_m12, 2, 6, [1, 2], 10);
 // @harness props=C11,C02 tier=thorough group=f64 bounds=target=[2,0,1],totals<=6,dirty-scratch=any-usize,pmf=table-stub timeout=1800
 dirty_buf_h!(project_unchecked_dirty_buf_m201, 3, 6, [2, 0, 1], 10);
 
+/// C11 / C02: two projected sites through ONE PartialProjection (as the site reader does): the
+/// second contribution is what a fresh projection gives for the second site, whatever the first was.
+fn two_sites_case<const D: usize, const M: usize>(m: [usize; D]) {
+    let t1: [usize; D] = kani::any();
+    let c1: [usize; D] = kani::any();
+    let t2: [usize; D] = kani::any();
+    let c2: [usize; D] = kani::any();
+    let mut mshape = [0usize; D];
+    let mut j = 0;
+    while j < D {
+        kani::assume(t1[j] <= 6 && t1[j] >= m[j] && c1[j] <= t1[j]);
+        kani::assume(t2[j] <= 6 && t2[j] >= m[j] && c2[j] <= t2[j]);
+        mshape[j] = m[j] + 1;
+        j += 1;
+    }
+    let (t1c, c1c, t2c, c2c) = (Count(vec_of(&t1)), Count(vec_of(&c1)), Count(vec_of(&t2)), Count(vec_of(&c2)));
+    let mut pp = PartialProjection::new(Count(vec_of(&m)));
+    let mut first = Scs::from_zeros(Shape(vec_of(&mshape)));
+    pp.project_unchecked(&t1c, &c1c).add_unchecked(&mut first);
+    let mut second = Scs::from_zeros(Shape(vec_of(&mshape)));
+    pp.project_unchecked(&t2c, &c2c).add_unchecked(&mut second);
+    let out = second.inner().as_slice();
+    let mut q = 0;
+    while q < M {
+        let t = unrank(&mshape, q);
+        let mut w = 1.0f64;
+        let mut j = 0;
+        while j < D {
+            w *= h_ref(t2[j], c2[j], m[j], t[j]);
+            j += 1;
+        }
+        assert!(same(out[q], w));
+        q += 1;
+    }
+    kani::cover!(true, "reached end");
+    core::mem::forget(first);
+    core::mem::forget(second);
+}
+
+macro_rules! two_sites_h {
+    ($name:ident, $d:literal, $mm:literal, $m:expr, $unw:literal) => {
+        #[kani::proof]
+        #[kani::unwind($unw)]
+        #[kani::stub(crate::utils::hypergeometric_pmf, h_stub)]
+        fn $name() {
+            two_sites_case::<$d, $mm>($m)
+        }
+    };
+}
+
+// @harness props=C11,C02 tier=quick group=f64 bounds=target=[2],two-sites,totals<=6,counts-symbolic,pmf=table-stub timeout=900
+two_sites_h!(project_two_sites_m2, 1, 3, [2], 7);
+
+// @harness props=C11,C02 tier=thorough group=f64 bounds=target=[1,1],two-sites,totals<=6,counts-symbolic,pmf=table-stub timeout=1800
+two_sites_h!(project_two_sites_m11, 2, 4, [1, 1], 8);
+
 /// C03: validation. Ranks concrete, lengths symbolic 0..4.  Ok iff same rank, no zero length and
 /// target <= source on every axis; the error names a true reason.
 fn from_shapes_case<const RF: usize, const RT: usize>() {
